@@ -10,6 +10,8 @@ mod rng;
 mod checksum_w;
 mod glob_w;
 mod twins;
+mod plan_w;
+mod patch_w;
 /// the CLI's modules, #[path]-included unedited from the tree under check
 #[allow(dead_code, unused_imports, clippy::all)]
 pub mod cli {
@@ -57,6 +59,19 @@ fn search(contract: &str, seed: u64, budget: u64) -> i32 {
     if c.ends_with("RollingChecksum::roll") || c.ends_with("RollingChecksum::push") || c.ends_with("RollingChecksum::digest") {
         return checksum_w::search_ops(c.contains("Fast"), seed, budget);
     }
+    if c == "reconcile" || c.ends_with("::reconcile") || c.ends_with("reconcile_path") {
+        return plan_w::search_reconcile();
+    }
+    if c.ends_with("build_plan") || c.ends_with("needs_transfer") {
+        return plan_w::search_plan();
+    }
+    if c.ends_with("is_excluded") {
+        let rc = twins::is_excluded(seed, budget.min(10));
+        return rc;
+    }
+    if c.ends_with("::patch") {
+        return patch_w::search(c, seed, budget);
+    }
     if c.ends_with("glob_match") {
         return glob_w::search(seed, budget);
     }
@@ -73,6 +88,9 @@ fn run(w: &str) -> i32 {
         "checksum-new" => checksum_w::run_new(w),
         "checksum-ops" => checksum_w::run_ops(w),
         "glob" => glob_w::run(w),
+        "patch" => patch_w::run(w),
+        "reconcile" => plan_w::run_reconcile(w),
+        "build_plan" => plan_w::run_plan(w),
         "is_excluded" => twins::run_is_excluded(w),
         "parse_meta" => twins::run_parse_meta(w),
         _ => {
